@@ -21,13 +21,16 @@ class C19(core.Check):
                  "quantified over every arrival schedule; differential run of the compiled model against the real Client driven through scripted tcp.Client / "
                  "tcp.ClientTls subclasses (delays, split delivery, chunked / until-close / truncated framing, closing servers, redirect chains across servers); "
                  "independent oracle over the servers' own wire log")
-    level_text = ("Proved for every request queue, every server script and every arrival schedule (unbounded, induction over service cycles): one_in_flight (at most one "
-                  "request is on the wire unanswered; a queued request is transmitted only when none is), fifo (the k-th response entry originates from the k-th queued "
-                  "request — its own reply key or that of the first hop of its redirect history — and entries + in-process + still-queued account for every request exactly once), "
-                  "redirect_history_attached (an entry's history holds exactly the redirect responses consumed for that request, in order, and an entry is never itself a followed redirect), "
-                  "https_to_http_refused (a client that starts on https never puts a request on a non-TLS connection; the refusal is terminal). "
-                  "The entry-per-request clause is proved for runs that are not cut short by a truncated response (C19-K1, recorded) or the refusal. "
-                  "The model is tied to clienting.py by a seeded differential run (entries, wire log, waited, queue length).")
+    level_text = ("Proved for every request queue, every world of scripted servers and every arrival schedule, any number of service cycles (unbounded; one invariant "
+                  "proved by induction over cycles): one_in_flight (the servers never hold more than one unanswered request: ghost peak <= 1, inflight is 1 exactly while the "
+                  "client waits for a response it can still get), fifo (answered ++ in-process ++ still-queued is exactly 0..n-1; the k-th response entry originates from the "
+                  "k-th queued request — own reply key or the key carried by the first hop of its history), entry_carries_request (an entry with key k holds exactly the k-th "
+                  "request; a history's first hop was drawn by the k-th request's path), one_entry_each_partial (a run that ended idle has exactly one entry per request), "
+                  "redirect_history_attached (history = only redirect responses consumed for that request, in order; a non-error entry is never itself a redirect), "
+                  "https_to_http_refused / https_client_only_tls / refusal_is_terminal (once on https the client stays on https, every later request goes over TLS, the "
+                  "refusal ends the run; refusal_witness shows it happens).  one_entry_each is _partial: a response cut short after some body bytes never completes "
+                  "(truncated_response_sticks, recorded as C19-K1).  closed_connection_yields_error_entries pins the repaired F51 behaviour. "
+                  "The model is tied to clienting.py by a seeded differential run (entries, wire log, waited, queue length); the redirect status set is re-extracted by probing.")
     level_note = ("Trusted: Lean kernel + propext/Classical.choice/Quot.sound; message-level abstraction of the byte stream (response parsing is C13/C17's), "
                   "carried by the sampled correspondence under random delays and splits; the scripted connectors replace sockets only (open/wrap/handshake).")
     quick_n = 500
@@ -65,6 +68,21 @@ class C19(core.Check):
             (False, R, [(8101, 0, [red(0, 8101, b"/r0"), red(0, 8101, b"/r1"), ok(b"end", 1, 2, (5, 9)), ok(b"b", 0, 3), ok(b"c")])], 0),
             (False, R, [(8101, 0, [red(1, 8101, b"/r0"), ok(b"sec")])], 0),                                    # http -> https on the same port
         ]
+
+    def exhaustive(self, tier):
+        if tier != "thorough":
+            return [], None
+        import itertools
+        R = [(b"GET", b"/q0", b""), (b"POST", b"/q1", b"xyz")]
+        alpha = [(200, None, b"a", 0, 0, [], False), (200, None, b"bc", 1, 1, [7], False), (404, None, b"d", 0, 0, [], True),
+                 (302, (0, 8101, b"/r0"), b"", 0, 0, [], False), (307, (0, 8102, b"/r1"), b"x", 1, 0, [], False), (200, None, b"ef", 3, 0, [], False),
+                 (200, None, b"gh", 2, 0, [], False)]
+        other = (8102, 0, [(200, None, b"O1", 0, 0, [], False), (301, (0, 8101, b"/r2"), b"", 0, 0, [], True), (200, None, b"O3", 1, 0, [], False)])
+        cs = []
+        for n in (1, 2, 3):
+            for script in itertools.product(alpha, repeat=n):
+                cs.append((False, R, [(8101, 0, list(script)), other], 0))
+        return cs, "all scripts of length 1..3 over 7 response kinds (length, chunked+delay, close, redirect same/other server, truncated, until-close) for a queue of 2 requests"
 
     def _body(self, rng):
         k = rng.random()
@@ -167,7 +185,8 @@ class C19(core.Check):
         if secure and (insecure_bytes or any(not w[1] for w in wire)):
             bad.append("https-to-http-not-refused")
         for i, (w, sv) in enumerate(zip(wire, served)):
-            if w[1] and sv[0] in REDIRECTS and sv[1] is not None and not sv[1][0] and (i != len(wire) - 1 or outcome != "refused"):
+            never_complete = sv[3] == 3 and len(sv[2]) > 0       # cut short by the server: the redirect is never seen as a whole (C19-K1)
+            if w[1] and sv[0] in REDIRECTS and sv[1] is not None and not sv[1][0] and not never_complete and (i != len(wire) - 1 or outcome != "refused"):
                 bad.append("https-to-http-not-refused")
                 break
         groups = self._walk(case, obs)
